@@ -114,5 +114,9 @@ def run(ctx: Ctx):
         lists = [n for n in ast.walk(f.node) if isinstance(n, ast.Assign) and norm(n.targets[0]) == "argument_list"]
         ok = bool(lists) and norm(lists[0].value).replace("'", '"') == '[argument_dict[v] for v in value] + ["double* values"]'
         ctx.check(ok, "R02.d", f.key("out-parameter"), "result is the trailing `double* values`", f"{f.qualname}: argument list is {norm(lists[0].value) if lists else None}", f.where())
-    ctx.rule("R02.e", "the C functions number their slots like the index functions (slot families)", floor=18)
+    ctx.rule("R02.e", "the C functions number their slots like the index functions (slot families)", floor=17)
     slot_families(ctx, "R02.e")
+    ctx.rule("R02.f", "the Rush-Larsen schemes emitted for C keep their zero-division guard unless the linearisation is provably non-zero (same rule as R06.b: C evaluates 0/0 to NaN)", floor=6)
+    from .c06 import check_elision
+
+    check_elision(ctx, "R02.f")
